@@ -43,6 +43,7 @@ type targets struct {
 	brk, cont *Block
 	label     string
 	prev      *targets
+	loop      bool
 }
 
 type Lowerer struct {
